@@ -33,6 +33,7 @@ class Spec:
         self.py_open_extra = {"CompletionItemKind"} if python_customizations else set()
         self._flat = {}
         self.open_empty_objects = False
+        self.special_optional = False  # C10 parse reading: an absent null-admitting / string-literal member is acceptable
         self.allow_extra = False  # open reading: undeclared members are tolerated (forward compatibility, C15)
         self._check_discipline()
 
@@ -282,7 +283,7 @@ class Spec:
             if p["name"] in v:
                 if not self.valid(p["type"], v[p["name"]], depth + 1):
                     return False
-            elif not p.get("optional"):
+            elif not p.get("optional") and not (self.special_optional and self.special(p)):
                 return False
         return True
 
